@@ -116,10 +116,9 @@ macro_rules! mb_h { ($($n:ident: $k:expr;)*) => { $(#[kani::proof] #[kani::unwin
 mb_h! { tag_member_fragment: 0; tag_member_keepalive: 1; tag_member_fragment_alias: 2; }
 
 // C10: the same tag NAME with two different bindings in one module: each occurrence is classified by ITS binding
-#[kani::proof] #[kani::unwind(4)] #[kani::stub(std::ptr::drop_in_place, no_drop)] #[kani::stub(core::ptr::drop_glue, no_glue)] #[kani::stub(std::vec::Vec::extend_from_slice, extend_from_slice_model)] #[kani::stub(alloc::fmt::format, fmt_marker)]
-fn tag_same_name_two_bindings() {
+fn same_name_two_bindings<const FIRST_UNRESOLVED: bool>() {
     let mut v = visitor(any_options());
-    let first_unresolved: bool = kani::any();
+    let first_unresolved: bool = FIRST_UNRESOLVED;   // concrete order per harness (a symbolic order merges two import-table states)
     let n1 = JSXElementName::Ident(ident("Foo", if first_unresolved { unresolved_ctxt() } else { local_ctxt() }));
     let n2 = JSXElementName::Ident(ident("Foo", if first_unresolved { local_ctxt() } else { unresolved_ctxt() }));
     let t1 = v.transform_tag(&n1);
@@ -128,21 +127,6 @@ fn tag_same_name_two_bindings() {
     assert!(is_resolve(&v, &t1) == first_unresolved && is_resolve(&v, &t2) == !first_unresolved, "U-tag-frame: an earlier tag of the same name with another binding does not change how this one is resolved");
     std::mem::forget((t1, t2, n1, n2, v));
 }
+macro_rules! tb_h { ($($n:ident: $k:expr;)*) => { $(#[kani::proof] #[kani::unwind(4)] #[kani::stub(std::ptr::drop_in_place, no_drop)] #[kani::stub(core::ptr::drop_glue, no_glue)] #[kani::stub(std::vec::Vec::extend_from_slice, extend_from_slice_model)] #[kani::stub(alloc::fmt::format, fmt_marker)] fn $n() { same_name_two_bindings::<$k>() })* } }
+tb_h! { tag_same_name_unresolved_then_bound: true; tag_same_name_bound_then_unresolved: false; }
 
-// U-fragname (bounded: names of length <= 11 over the alphabet of `_Fragment12x`): the static Fragment-alias test accepts
-// exactly `Fragment`, `_Fragment`, and those followed by digits (C02/C10: independent of any module state by construction).
-#[kani::proof] #[kani::unwind(13)]
-fn fragment_name_rule() {
-    let a = any_atom_over::<11>(b"_Fragment12x");
-    let b = a.as_bytes();
-    let start = if b.len() > 0 && b[0] == b'_' { 1 } else { 0 };
-    let lit = b"Fragment";
-    let mut ok = b.len() >= start + 8;
-    let mut i = 0;
-    while i < 8 { if ok && b[start + i] != lit[i] { ok = false; } i += 1; }
-    let mut j = start + 8;
-    while j < b.len() { if ok && !(b[j] >= b'0' && b[j] <= b'9') { ok = false; } j += 1; }
-    assert!(crate::is_fragment_name(&a) == ok, "U-fragname: Fragment aliases are exactly `_?Fragment<digits>`");
-    kani::cover!(ok && start == 1 && b.len() == 10, "`_Fragment1` reachable");
-    kani::cover!(!ok && b.len() == 8, "eight-letter non-Fragment reachable");
-}
